@@ -105,6 +105,10 @@ Record case := mk_case {
   c_snapshot : option tree;  (* tree returned by a snapshot right after the last checkout *)
   c_scratch : fs;            (* listing of a second workspace (same untracked entries, same
                                 sparse patterns) after checking out the last tree directly *)
+  c_real_only : list bool;   (* observations on the real code alone, outside the model:
+                                conflicted trees and other EOL / exec-bit settings: a snapshot
+                                right after each checkout returned the identical tree ids, and
+                                the from-scratch workspace has the identical disk *)
 }.
 
 Definition last_tree (c : case) : tree :=
@@ -129,7 +133,8 @@ Definition okb (c : case) : bool :=
   && option_eqb tree_same (c_snapshot c) (Some (last_tree c))
   && tree_eqb (snap (last_disk c) (keys (restrict (matches (c_sparse c)) (last_tree c))))
               (restrict (matches (c_sparse c)) (last_tree c))
-  && fs_eqb (c_scratch c) (last_disk c).
+  && fs_eqb (c_scratch c) (last_disk c)
+  && forallb (fun b => b) (c_real_only c).
 
 (** The hypotheses of the theorems, decided on the recorded inputs. *)
 Definition pre_ok (c : case) : bool :=
